@@ -25,6 +25,88 @@ PGAST = 'edb/pgsql/ast.py'
 
 def conj(cs): return ' and '.join('(%s)' % c for c in cs)
 
+PATHCTX = 'edb/pgsql/compiler/pathctx.py'
+
+def build_setop(w):
+    """C (scoping, fragment): the output column of a set operation (UNION arms).  PostgreSQL names the columns of a set operation after its LEFTMOST arm and
+    every arm must expose the same number of columns, so
+      C1  get_path_output_or_null: an arm that cannot provide the path gets exactly one new `NULL AS <alias>` column, registered under the arm's own
+          (mapped) path id; nothing else of the arm, and no other query, changes
+      C2  _get_path_var_in_setop: the column reference registered for the whole set operation is the one of the leftmost arm (outputs[0])
+      C3  _get_path_var_in_setop: if NO arm provides the path (LookupError) every placeholder column is taken back: each arm has its old number of
+          columns and no output registered for its mapped path id -- a later lookup cannot mistake the placeholders for the real thing"""
+    w.refclass('PathId', {}); w.enum('Aspect', 'edb/pgsql/compiler/enums.py', 'PathAspect')
+    w.refclass('OutVar', {'nullable': 'bool'})
+    w.refclass('Query', {'target_list': 'Seq[Obj]', 'path_outputs': 'Map[Tuple[PathId,Aspect],OutVar]', 'view_path_id_map': 'Obj'})
+    w.refclass('PEnv', {'aliases': 'Obj'})
+    w.ufunc('MAPPED', ['PathId', 'Obj'], 'PathId'); w.ufunc('ARMS', ['Query'], 'Seq[Query]'); w.ufunc('SRC', ['Obj'], 'OutVar')
+    w.trusted.append('pathctx: map_path_id is a function of (path id, view map); each_query_in_set yields the distinct leaf queries of the set operation, leftmost first; '
+                     'maybe_get_path_output / maybe_get_path_var / get_path_var / put_path_var touch no target list or path_outputs other than those of the query they are given '
+                     '(maybe_get_path_var / get_path_var / put_path_var none of an arm at all)')
+    QF = ['Query.target_list', 'Query.path_outputs']
+    ONLY = lambda q: 'heap_same_except("Query.target_list", %s) and heap_same_except("Query.path_outputs", %s)' % (q, q)
+    w.ext_funcs['map_path_id'] = dict(params={'path_id': 'PathId', 'path_id_map': 'Obj'}, returns='PathId', returns_expr='MAPPED(path_id, path_id_map)')
+    w.ext_funcs['maybe_get_path_output'] = dict(params={'rel': 'Query', 'path_id': 'PathId', 'aspect': 'Aspect', 'env': 'PEnv'}, optional=('disable_output_fusion', 'flavor'),
+        returns='Opt[OutVar]', modifies=QF + ['$alloc'],
+        # (assumed) a failed lookup leaves the query as it was
+        ensures=[ONLY('rel'), 'implies(is_none(result), rel.target_list == old(rel.target_list) and map_same(rel.path_outputs, old(rel.path_outputs)))'])
+    w.ext_funcs['get_less_specific_aspect'] = dict(params={'path_id': 'PathId', 'aspect': 'Aspect'}, returns='Opt[Aspect]')
+    w.ext_methods['Obj.get'] = dict(params={'hint': 'str'}, returns='Obj')
+    w.ext_funcs['pgast.ResTarget'] = dict(params={'name': 'Obj', 'val': 'Obj'}, returns='Obj')
+    w.ext_funcs['pgast.NullConstant'] = dict(params={}, returns='Obj')
+    w.contract(PATHCTX, '_put_path_output_var', params={'rel': 'Query', 'path_id': 'PathId', 'aspect': 'Aspect', 'var': 'OutVar', 'flavor': 'str'}, returns='none',
+        requires=['flavor != "packed"'], modifies=['Query.path_outputs'],
+        ensures=['(path_id, aspect) in rel.path_outputs and rel.path_outputs[(path_id, aspect)] == var', 'map_same_except(rel.path_outputs, old(rel.path_outputs), (path_id, aspect))',
+                 'heap_same_except("Query.path_outputs", rel)'])
+    MP = 'MAPPED(path_id, rel.view_path_id_map)'
+    w.contract(PATHCTX, 'get_path_output_or_null', params={'rel': 'Query', 'path_id': 'PathId', 'disable_output_fusion': 'bool', 'flavor': 'str', 'aspect': 'Aspect', 'env': 'PEnv'},
+        returns='Tuple[OutVar,bool]', requires=['flavor == "normal"'], modifies=QF + ['$alloc'],
+        ensures=[ONLY('rel'),
+                 # the arm could not provide the path: one placeholder column, registered under the arm's own path id
+                 'implies(result[1], len(rel.target_list) == old(len(rel.target_list)) + 1 and (%s, aspect) in rel.path_outputs and rel.path_outputs[(%s, aspect)] == result[0] and result[0].nullable)' % (MP, MP)],
+        hints={'ext_funcs': {'pgast.ColumnRef': dict(params={'name': 'Obj', 'nullable': 'bool'}, returns='OutVar', modifies=['$alloc'], ensures=['result.nullable == nullable'])}})
+
+    # ---- _get_path_var_in_setop
+    w.ext_funcs['astutils.each_query_in_set'] = dict(params={'qry': 'Query'}, returns='Seq[Query]', returns_expr='ARMS(qry)')
+    w.ext_funcs['maybe_get_path_var'] = dict(params={'rel': 'Query', 'env': 'PEnv', 'path_id': 'PathId', 'aspect': 'Aspect'}, returns='Opt[Obj]', modifies=['$alloc'])
+    w.ext_funcs['get_path_var'] = dict(params={'rel': 'Query', 'env': 'PEnv', 'path_id': 'PathId', 'aspect': 'Aspect'}, returns='Obj', modifies=['$alloc'], raises={'InnerLookupError': {}})       # (own name: whatever the lookup in an arm raises, kept apart from the LookupError of C3)
+    w.ext_funcs['put_path_var'] = dict(params={'rel': 'Query', 'path_id': 'PathId', 'var': 'Obj', 'aspect': 'Aspect'}, optional=('force', 'flavor'), returns='none', raises={'InnerLookupError': {}})
+    w.ext_funcs['output.output_as_value'] = dict(params={'expr': 'Obj', 'env': 'PEnv'}, returns='Obj', modifies=['$alloc'])
+    w.ext_funcs['astutils.strip_output_var'] = dict(params={'var': 'OutVar', 'optional': 'bool', 'nullable': 'bool'}, returns='Obj', modifies=['$alloc'], ensures=['SRC(result) == var'])
+    w.ext_methods['PathId.is_objtype_path'] = dict(params={}, returns='bool')
+    DIST = 'forall(0, len(ARMS(rel)), lambda a: forall(0, len(ARMS(rel)), lambda b: implies(a != b, seq_get(ARMS(rel), a) != seq_get(ARMS(rel), b))))'
+    ARM = lambda k: 'seq_get(ARMS(rel), %s)' % k
+    KEY = lambda k: '(MAPPED(path_id, %s.view_path_id_map), aspect)' % ARM(k)
+    UNTOUCHED = lambda k: '%s.target_list == old(%s.target_list) and map_same(%s.path_outputs, old(%s.path_outputs))' % (ARM(k), ARM(k), ARM(k), ARM(k))
+    PLACED = lambda k: ('implies(acc[%s][1], len(%s.target_list) == old(len(%s.target_list)) + 1 and %s in %s.path_outputs)' % (k, ARM(k), ARM(k), KEY(k), ARM(k)))
+    PLACED_O = lambda k: PLACED(k).replace('acc[', 'outputs[')
+    RESTORED = lambda k: 'len(%s.target_list) == old(len(%s.target_list)) and not (%s in %s.path_outputs)' % (ARM(k), ARM(k), KEY(k), ARM(k))
+    ALLNULL = lambda hi: 'forall(0, %s, lambda k: outputs[k][1])' % hi
+    w.contract(PATHCTX, '_get_path_var_in_setop', params={'rel': 'Query', 'path_id': 'PathId', 'aspect': 'Aspect', 'flavor': 'str', 'env': 'PEnv'}, returns='Obj',
+        requires=[DIST, 'flavor == "normal"', 'len(ARMS(rel)) >= 1'],
+        modifies=QF + ['$alloc'],
+        ensures=['SRC(result) == outputs[0][0]'],                                                                                       # C2: the leftmost arm names the column
+        raises={'LookupError': dict(ensures=['implies(%s, forall(0, len(ARMS(rel)), lambda k: %s))' % (ALLNULL('len(outputs)'), RESTORED('k'))]),    # C3
+                'AssertionError': {}, 'InnerLookupError': {},
+                # taking the placeholders back cannot fail when every arm got one
+                'KeyError': dict(ensures=['not (%s)' % ALLNULL('len(outputs)')]), 'IndexError': dict(ensures=['not (%s)' % ALLNULL('len(outputs)')])},
+        abstract={'counts = [len(x.target_list) for x in astutils.each_query_in_set(rel)]': dict(assigns={'counts': 'Seq[int]'}),
+                  'assert counts == [counts[0]] * len(counts)': dict()},
+        loops={'comp#0': dict(elem_type='Opt[Obj]', acc='acc', index='i', seq='its', modifies=[], invariant=['len(acc) == i']),
+               0: dict(fingerprint='for subrel in astutils.each_query_in_set(rel)', index='j0', invariant=['forall(0, len(ARMS(rel)), lambda k: %s)' % UNTOUCHED('k')]),
+               'comp#3': dict(elem_type='Tuple[OutVar,bool]', acc='acc', index='i', seq='its', modifies=QF,
+                              invariant=['len(acc) == i', 'its == ARMS(rel)', 'forall(0, i, lambda k: %s)' % PLACED('k'), 'forall(i, len(ARMS(rel)), lambda k: %s)' % UNTOUCHED('k')]),
+               1: dict(fingerprint='for (colref, is_null) in outputs', index='i1', invariant=[
+                          'is_none(first) == (i1 == 0)', 'implies(i1 > 0, some(first) == outputs[0][0])',
+                          'all_null == forall(0, i1, lambda k: outputs[k][1])', 'optional == exists(0, i1, lambda k: outputs[k][1])']),
+               2: dict(fingerprint='for subrel in astutils.each_query_in_set(rel)', index='j2', invariant=[
+                          'len(outputs) == len(ARMS(rel))',
+                          'implies(%s, forall(0, j2, lambda k: %s))' % (ALLNULL('len(outputs)'), RESTORED('k')),
+                          'implies(%s, forall(j2, len(ARMS(rel)), lambda k: %s))' % (ALLNULL('len(outputs)'), PLACED_O('k')),
+                          # (the instance for the arm about to be cleaned, spelled out: the solver does not find it by itself)
+                          'implies(%s and j2 < len(ARMS(rel)), len(%s.target_list) >= 1 and %s in %s.path_outputs)' % (ALLNULL('len(outputs)'), ARM('j2'), KEY('j2'), ARM('j2'))])},
+        hints={'var_types': {'test_vals': 'Seq[Opt[Obj]]', 'first': 'Opt[OutVar]'}})
+
 def build():
     w = World('C13')
     w.refclass('Obj', {}, universal=True)
@@ -132,6 +214,7 @@ def build():
                  'forall(str, lambda k: implies(k != H, self.counts[k] == old(self.counts[k])))',
                  # the normalised hint: "v" for the empty hint, else the hint without a trailing ~digits (it never ends in ~digits itself)
                  'implies(hint == "", H == "v")', 'str_prefixof(H, hint) or hint == ""'])
+    build_setop(w)
     return w
 
 def scenarios(tier, seed, repo_root, outdir):
@@ -144,6 +227,43 @@ def scenarios(tier, seed, repo_root, outdir):
     p = subprocess.run(['/venv/bin/python', os.path.join(here, 'scenario.py'), str(seed), '3' if tier == 'quick' else '4', out], capture_output=True, text=True, env=env, cwd=repo_root, timeout=3000)
     if not os.path.exists(out): raise RuntimeError('scenario runner failed: ' + (p.stderr or p.stdout)[-2000:])
     r = json.load(open(out))
-    return dict(evaluations=r['argmaps'] + r['alias_runs'], failure=r['failure'],
-                label='%d (parameter list, globals, naming mode) combinations through the real populate_argmap; %d hint sequences through two real AliasGenerators (bounded)' % (r['argmaps'], r['alias_runs']),
-                clause='physical slots form 1..N, logical slots 1..L, ordinary before extracted parameters; aliases deterministic and pairwise distinct')
+    # set-operation output columns: the real _get_path_var_in_setop on all small UNION trees (see scenario_setop.py)
+    out2 = os.path.join(outdir, 'scenario_setop_out.json')
+    if os.path.exists(out2): os.unlink(out2)
+    p2 = subprocess.run(['/venv/bin/python', os.path.join(here, 'scenario_setop.py'), str(seed), '3' if tier == 'quick' else '4', out2], capture_output=True, text=True, env=env, cwd=repo_root, timeout=3000)
+    if not os.path.exists(out2): raise RuntimeError('set-operation scenario runner failed: ' + (p2.stderr or p2.stdout)[-2000:])
+    r2 = json.load(open(out2))
+    if not r2['failure'] and not (r2['stats']['returned'] > 0 and r2['stats']['lookup_errors'] > 0 and r2['stats']['with_view_path_id_map'] > 0 and r2['stats']['leftmost_N_later_P'] > 0):
+        raise RuntimeError('set-operation explorer is vacuous: %r' % r2['stats'])
+    fail = r['failure'] or (dict(function='pathctx._get_path_var_in_setop', **r2['failure']) if r2['failure'] else None)
+    return dict(evaluations=r['argmaps'] + r['alias_runs'] + r2['cases'], failure=fail,
+                label='%d (parameter list, globals, naming mode) combinations through the real populate_argmap; %d hint sequences through two real AliasGenerators; '
+                      '%d UNION trees (2..%s arms, each arm providing the path or not, with / without a view path-id map, 3 aspects) through the real _get_path_var_in_setop (bounded)'
+                      % (r['argmaps'], r['alias_runs'], r2['cases'], '3' if tier == 'quick' else '4'),
+                clause='physical slots form 1..N, logical slots 1..L, ordinary before extracted parameters; aliases deterministic and pairwise distinct; '
+                       'a set operation exposes the path under the column name of its leftmost arm, arms stay balanced, a failed lookup leaves no placeholder behind')
+
+
+def extra_obligations(w, tier, seed):
+    """D (parameter consistency, AST obligation): the list of detached parameter types handed out with the SQL (it becomes the argument list of the cached SQL
+    function) is ordered by the PHYSICAL parameter index of the argument map -- the same numbers compile_Parameter writes into the text (A')."""
+    out = []
+    def ob(oid, clause, ok, where, undecided=False):
+        return dict(id=oid, kind='shape', clause=clause, tag='property', paths=1, status='discharged' if ok else ('unknown' if undecided else 'failed'), backend='ast-scan', seconds=0.0,
+                    model=None if ok else {'offending_source_location': where}, where=where, function='ast-scan')
+    fn, _ = repo.find_def('edb/pgsql/compiler/__init__.py', 'compile_ir_to_sql_tree')
+    key_ok = None; order_ok = None; where = []
+    for n in ast.walk(fn):
+        if isinstance(n, ast.Assign) and len(n.targets) == 1 and isinstance(n.targets[0], ast.Name):
+            if n.targets[0].id == 'detached_params_idx' and isinstance(n.value, ast.DictComp):
+                k = ast.unparse(n.value.key); key_ok = (k == 'ctx.argmap[param.name].index'); where.append('line %d: keyed by %s' % (n.lineno, k))
+            if n.targets[0].id == 'detached_params':
+                v = n.value; txt = ast.unparse(v); where.append('line %d: detached_params = %s' % (n.lineno, txt))
+                order_ok = (isinstance(v, ast.ListComp) and len(v.generators) == 1 and not v.generators[0].ifs
+                            and ast.unparse(v.generators[0].iter) == 'sorted(detached_params_idx.items())'
+                            and isinstance(v.generators[0].target, ast.Tuple) and len(v.generators[0].target.elts) == 2
+                            and ast.unparse(v.elt) == ast.unparse(v.generators[0].target.elts[1]))
+    und = key_ok is None or order_ok is None
+    out.append(ob('scan/detached-params/ordered-by-physical-index', 'compile_ir_to_sql_tree: detached_params lists the parameter types in the order of ctx.argmap[name].index '
+                  '(a dict keyed by that index, read out through sorted(...items()))', bool(key_ok and order_ok), '; '.join(where) or 'shape not recognised', undecided=und and not (key_ok is False or order_ok is False)))
+    return out
